@@ -53,6 +53,10 @@ const (
 	// the same over a bytes.Reader the caller has already read from (version sniffing): carv2.NewReader
 	// uses ReadAt only, which neither depends on nor moves the Read position
 	ProfDataReaderSniffed = "Reader.DataReader/sniffed"
+	// the archive embedded in a larger seekable source (a bytes.Reader over preamble + archive + trailer for
+	// CARv2, preamble + archive for CARv1), handed over positioned at the start of the archive: a reader
+	// reads from where it is given the source, so positions are those of a stream starting there
+	ProfEmbedded = "bytes.Reader/embedded"
 )
 
 func isDataReaderProf(p string) bool { return p == ProfDataReader || p == ProfDataReaderSniffed }
@@ -80,6 +84,12 @@ func openSource(data []byte, profile string, del sim.Delivery) (io.Reader, *sim.
 	case ProfBytes:
 		r := bytes.NewReader(data)
 		return r, nil, func() int64 { return int64(len(data) - r.Len()) }, func() {}
+	case ProfEmbedded:
+		pre := []byte("some preamble of thirty-one bytes")
+		whole := append(append([]byte{}, pre...), data...)
+		r := bytes.NewReader(whole)
+		r.Seek(int64(len(pre)), io.SeekStart)
+		return r, nil, func() int64 { return int64(len(whole)-r.Len()) - int64(len(pre)) }, func() {}
 	case ProfOSFile:
 		p := filepath.Join(scratchDir(), "tmp", fmt.Sprintf("src-%d.car", os.Getpid()))
 		os.MkdirAll(filepath.Dir(p), 0o755)
@@ -103,7 +113,7 @@ func runC14One(l *Layout, choices string, profile string, del sim.Delivery, opts
 	defer done()
 	var br *carv2.BlockReader
 	var err error
-	loc := fmt.Sprintf("v%d/%s", map[bool]int{false: 1, true: 2}[l.Spec.V2], map[bool]string{false: "stream", true: "seekable"}[sim.IsSeekable(profile) || profile == ProfBytes || profile == ProfOSFile || isDataReaderProf(profile)])
+	loc := fmt.Sprintf("v%d/%s", map[bool]int{false: 1, true: 2}[l.Spec.V2], map[bool]string{false: "stream", true: "seekable"}[sim.IsSeekable(profile) || profile == ProfBytes || profile == ProfEmbedded || profile == ProfOSFile || isDataReaderProf(profile)])
 	if isDataReaderProf(profile) {
 		if l.Spec.V2 {
 			return nil // the DataReader of a CARv2 is the bare payload: a different archive; covered for CARv1
@@ -251,9 +261,9 @@ func RunC14(t *Trace, st *Stats) *Violation {
 	}
 	var first *Violation
 	seen := map[string]bool{}
-	for _, prof := range append(append([]string{}, readerProfiles...), ProfBytes, ProfOSFile, ProfDataReader, ProfDataReaderSniffed) {
+	for _, prof := range append(append([]string{}, readerProfiles...), ProfBytes, ProfOSFile, ProfDataReader, ProfDataReaderSniffed, ProfEmbedded) {
 		dels := []sim.Delivery{{ErrAt: -1}, GenDelivery(r), {Chunks: []int{1}, ErrAt: -1, EOFWithData: true}}
-		if prof == ProfBytes || prof == ProfOSFile || isDataReaderProf(prof) {
+		if prof == ProfBytes || prof == ProfEmbedded || prof == ProfOSFile || isDataReaderProf(prof) {
 			dels = dels[:1] // real readers deliver as they please
 		}
 		for di, del := range dels {
